@@ -184,6 +184,11 @@ pub struct ExploreCfg {
     pub max_deviations: u32,
     pub deadline: Instant,
     pub dedupe: bool,
+    /// deterministic work bound: a deviation level is started only if it has at most this many executions (the size of a
+    /// level is known exactly before it starts). With it the amount of work does not depend on the speed of the machine.
+    pub level_cap: Option<u64>,
+    /// refuse a level that is estimated not to fit into the time left (off when `level_cap` decides)
+    pub use_estimate: bool,
     /// stop after this many violations' signatures were collected
     pub threads: usize,
 }
@@ -194,7 +199,11 @@ fn default_threads() -> usize {
 
 impl ExploreCfg {
     pub fn new(max_deviations: u32, deadline: Instant, dedupe: bool) -> ExploreCfg {
-        ExploreCfg { max_deviations, deadline, dedupe, threads: default_threads() }
+        ExploreCfg { max_deviations, deadline, dedupe, level_cap: None, use_estimate: true, threads: default_threads() }
+    }
+    /// work-bounded instead of time-bounded (the deadline is only a safety net)
+    pub fn work_bounded(max_deviations: u32, deadline: Instant, dedupe: bool, level_cap: u64) -> ExploreCfg {
+        ExploreCfg { max_deviations, deadline, dedupe, level_cap: Some(level_cap), use_estimate: false, threads: default_threads() }
     }
 }
 
@@ -214,8 +223,14 @@ pub fn explore<H: Harness>(h: &H, cfg: &ExploreCfg) -> ExploreReport {
             completed_level = Some(cfg.max_deviations);
             break;
         }
+        if let Some(cap) = cfg.level_cap {
+            if level > 0 && frontier.len() as u64 > cap {
+                eprintln!("  level {}: {} executions > work cap {}: not started", level, frontier.len(), cap);
+                break;
+            }
+        }
         // only start a level we can expect to finish
-        if level > 0 && prev_execs >= 200 {
+        if cfg.use_estimate && level > 0 && prev_execs >= 200 {
             let est = frontier.len() as f64 * avg_exec_s / cfg.threads as f64 * 0.8;
             let remaining = cfg.deadline.saturating_duration_since(Instant::now()).as_secs_f64();
             if est > remaining {
